@@ -71,8 +71,12 @@ def oracle(script: dict, run: Any) -> List[Violation]:
         if acks:
             a = acks[0]
             if ack_type == "when_received":
+                ad = h.first(d, "ack_done")
                 if fn_enter is not None and fn_enter[0] < a[0]:
                     out.append(Violation("C02/received-ack-after-start", f"when_received: delivery {d} acknowledged at event {a[0]} after its task function started at event {fn_enter[0]}"))
+                elif fn_enter is not None and (ad is None or ad[0] > fn_enter[0]):
+                    out.append(Violation("C02/received-ack-not-completed-before-start", f"when_received: delivery {d}: the task function started at event {fn_enter[0]} "
+                                         f"while the acknowledgement begun at event {a[0]} had not completed ({'event %d' % ad[0] if ad else 'never'}); a crash in between redelivers an executed message"))
             elif ack_type == "when_executed":
                 if fn_exit is None or fn_exit[0] > a[0]:
                     if not (fn_enter is None and h.first(d, "dep_fail") is not None):
